@@ -14,7 +14,7 @@ MANIFEST = dict(
          "them (invariant by induction; build_commitment_secret is executable over a Gallina SHA-256 validated "
          "against FIPS/RFC/BOLT-3 vectors).  On every run the real Node (new_channel / setup_channel / restore) is "
          "driven through all creation orders of <= 4 channel ids with restarts, a monitor compares every observation "
-         "of the same (seed, style, id) across histories, and the secret keys, keys_id, commitment seed and released "
+         "of the same (seed, style, id) across histories, a real channel is advanced through the protocol handler (hsmd protocol 4/5/6) and every API handing out a per-commitment point or secret, incl. replayed revocations, is compared with the derivation for the number asked, and the secret keys, keys_id, commitment seed and released "
          "secrets are recomputed inside Coq (HKDF/SHA-256 in Gallina, BIP32 child key by oracle); the real "
          "CounterpartyCommitmentSecrets is run against the model on descending / gapped / wrong / malformed streams "
          "of real released secrets.",
@@ -44,7 +44,9 @@ def run(res):
     n_store = 27 if quick else 180
     hist = lib.run_harness("keys", "hist", res.seed, n_hist, res.tier)
     store = lib.run_harness("keys", "store", res.seed, n_store, res.tier)
-    kcases, scases = hist.get("CASE", []), store.get("CASE", [])
+    adv = lib.run_harness("keys", "adv", res.seed, 12 if quick else 72, res.tier)
+    acases = adv.get("CASE", [])
+    kcases, scases = hist.get("CASE", []) + acases, store.get("CASE", [])
     imports = ["Model.KeysCheck"]
     fk = lib.coq_failures(imports, "keys_case", "check_keys", [c["coq"] for c in kcases], "c18_keys")
     fs = lib.coq_failures(imports, "store_case", "check_store", [c["coq"] for c in scases], "c18_store")
@@ -57,7 +59,12 @@ def run(res):
     for m in store.get("MONITOR", []):
         mon.append(("store", m, scases[m["case"]] if m.get("case", -1) < len(scases) else {}))
     for kind, v, c in mon[:3]:
-        if kind == "keys":
+        if kind == "keys" and c.get("kind") == "adv":
+            res.violation("per-commitment points / secrets are not a function of (seed, channel id, number asked): "
+                          + v.get("what", ""),
+                          {"domain": "keys-adv", "seed": res.seed, "violation": v, "node_seed": c.get("seed"),
+                           "style": c.get("style"), "hsmd_protocol": c.get("proto"), "channel_id": c.get("channel_id")})
+        elif kind == "keys":
             res.violation("channel keys are not a stable function of (seed, style, id): " + v.get("what", ""),
                           {"domain": "keys-hist", "seed": res.seed, "violation": v,
                            "node_seed": c.get("seed"), "style": c.get("style"),
@@ -84,7 +91,8 @@ def run(res):
         lib.log("[c18] note: the LND control did not show order dependence in this run")
     nontrivial = set()
     for c in kcases:
-        if c.get("has_secrets") and c.get("orders", 0) >= 2:
+        if c.get("has_secrets") and (c.get("orders", 0) >= 2 or
+                                     (c.get("kind") == "adv" and c.get("next_holder_commit_num", 0) >= 3)):
             nontrivial.add(c["coq"])
     for c in scases:
         oks = c.get("oks", [])
@@ -101,20 +109,30 @@ def run(res):
                 "restarts, setups, random extra channels, re-creation and observations interleaved; one Coq case per "
                 "(seed, style, id) with the secret keys, keys_id, commitment seed and the secrets of one number in 0..5 "
                 "plus three boundary numbers (6..65536, 2^47, 2^48-1 …, random 48-bit); non-trivial = observed in >= 2 "
-                "orders and with released secrets.  keys-store: nine stream kinds over the real released secrets of a "
+                "orders and with released secrets.  keys-adv: a real set-up channel advanced 4..7 holder commitments "
+                "through the handler (ValidateCommitmentTx2 with real counterparty signatures, RevokeCommitmentTx) at hsmd "
+                "protocol 4 / 5 / 6, restarts in between; at every state every API that hands out a per-commitment point "
+                "or secret (get_per_commitment_point, get_per_commitment_secret(_or_none), "
+                "revoke_previous_holder_commitment incl. replays of every old number, GetPerCommitmentPoint(2)Reply, "
+                "RevokeCommitmentTxReply and ValidateCommitmentTxReply incl. replays) is asked for every number in reach "
+                "and compared with the derivation for the number ASKED; the asked-number -> secret map is recomputed in "
+                "Coq from (seed, id); non-trivial = reached next_holder_commit_num >= 3 (old revocations replayed).  keys-store: nine stream kinds over the real released secrets of a "
                 "real channel (descending, gaps, wrong secret, repeats/older, the current minimum again with another secret, late start, malformed indices up to "
                 "2^64-1, long descending, mixed) with get_secret queries around every index; non-trivial = both an "
                 "accepted and a refused secret, or >= 3 slots with found and not-found/panicking queries; distinct by "
                 "full case term",
-        "samples": [_strip(kcases[0]) if kcases else {}, _strip(scases[0]) if scases else {}],
+        "samples": [_strip(kcases[0]) if kcases else {}, _strip(acases[0]) if acases else {},
+                    _strip(scases[0]) if scases else {}],
         "traces_validated_against_impl": len(allc),
         "correspondence_disagreements": len(fk) + len(fs),
         "monitor_failures": len(mon),
-        "harness_stats": hist.get("STATS", []) + store.get("STATS", []),
+        "harness_stats": hist.get("STATS", []) + adv.get("STATS", []) + store.get("STATS", []),
     })
     for s in cov["samples"]:
         if "histories" in s:
             s["histories"] = s["histories"][:2]
+        if "history" in s:
+            s["history"] = s["history"][:40]
     res.assumptions = [
         "C18_distinct only: HKDF injective in its salt on API channel ids (after the LDK mask), its 192-byte expansion "
         "injective in the key, SHA-256 injective (collision resistance idealised); HKDF output length 32*n bytes",
